@@ -59,3 +59,6 @@ add("C13", "metamorphic differential: the same role-level call sequence instanti
 add("C18", "argument-snapshot monitor (deep snapshots of every argument object and of the Grid before/after each call, return or raise) + fresh-object replay differential over call histories",
     "Histories of up to three operations re-use the same dictionaries and arrays; snapshots must be equal around every call and "
     "each outcome must equal that of the same call made first on freshly built objects.", "2/C18")
+add("C20", "edit engine over the valid-call corpora of the other checks: one ill-posing edit per case; observed outcome must be an exception, never an array",
+    "Each generated valid call is first confirmed to be accepted, then edited into an ill-posed request from the listed classes "
+    "(tagged consulted / unconsulted) and executed; the oracle only needs the outcome type.", "2/C20")
